@@ -432,3 +432,13 @@ def r8(ctx):
         yield VIOL("C01-R8", "mint/callers", "conversion GetSigningKeyResponse -> SigV4AuthenticatorResponse is called from %s (expected only validate_signature)" % paths, where=None)
     else:
         yield PASS("C01-R8", "mint/callers", "only validate_signature converts a provider response into a success value; %d construction sites all in the conversion/builder" % n, paths)
+
+
+import c12  # noqa: E402
+
+
+@M.rule("C01-R5b", "the payload hash has no source other than sha256_hex of the returned body (shared with C12-R3)")
+def r5b(ctx):
+    for r in c12.r3(ctx):
+        r.rule = "C01-R5b"
+        yield r
